@@ -426,8 +426,9 @@ def run(ctx):
     ctx.cov["structures_per_reason"] = reason_hist
     ctx.cov["structures_representable_with_bonds"] = clean_bonded
     sel = structs
-    if ctx.quick and len(sel) > 2000:
-        sel = ctx.rng.sample(structs, 2000)
+    cap = 2000 if ctx.quick else 120000
+    if len(sel) > cap:
+        sel = ctx.rng.sample(structs, cap)
     flat = [{"A": [list(a) for a in s["S"]["A"]], "B": sorted(list(b) for b in s["S"]["B"]),
              "rb": sorted(list(b) for b in s["rb"]), "refused": s["refused"], "reasons": sorted(s["reasons"])}
             for s in sel]
@@ -448,8 +449,9 @@ def run(ctx):
               "sel": [list(x) for x in s["sel"]]} for s in astates if s["phase"] == 1]
     if not any(c["rej"] for c in cases) or not any(any(r[2] != "." for r in c["rows"]) for c in cases):
         raise Vacuity("selection model vacuous")
-    if ctx.quick and len(cases) > 5000:
-        cases = ctx.rng.sample(cases, 5000)
+    ccap = 5000 if ctx.quick else 200000
+    if len(cases) > ccap:
+        cases = ctx.rng.sample(cases, ccap)
     citems = [{"cases": cases[i:i + 400], "fmt": "cif" if (i // 400) % 2 == 0 else "bcif"}
               for i in range(0, len(cases), 400)]
     ctx.log(f"S2: {len(cases)} selection cases")
